@@ -41,7 +41,10 @@ CHECKS["C13"] = ("TLC deadlock check of Listeners.tla + TLC schedules (incl. the
     "interleavings of concurrent listen and close scripts (stream and packet, same and different addresses). The model is bound to "
     "the code by step-by-step schedule replay through gates placed before every Lock(), channel operation and socket call; a call "
     "that does not return within the watchdog, with goroutines parked in sync.Mutex.Lock, is the verdict. The lock-order inversion "
-    "of the pinned commit is kept as a negative control and as regression schedules.",
+    "of the pinned commit is kept as a negative control and as regression schedules. Accept failures (EMFILE, injected by exhausting "
+    "the driver's descriptor table around the accept) are part of the model (GacceptErr) and of the schedules; a driver process that "
+    "dies with a panic in the repository's frames is a violation; stress adds mass acquire/release rounds (44 addresses), tcp and udp "
+    "of one port, debug logging, and churn loops (~100 000 acquire/accept/close rounds).",
     "Bounded: 3 threads, 3 keys, <=4 calls per thread exhaustively; more threads only in stress. A deadlock needs the watchdog "
     "(2 s) to expire with listen/close calls outstanding; slow machines cannot cause it because gates are opened first.",
     "DESIGN.md section 4 C13, 9a, 9d")
@@ -52,7 +55,9 @@ CHECKS["C19"] = ("per shared component: hook-linearized concurrent traces valida
     "drivers (2-64 goroutines) record every operation at its linearization point and TLC must explain all recorded results by the "
     "sequential specification. Whether the compiled code performs unsynchronised conflicting accesses is a memory-model fact that no "
     "trace of API events shows; for that half the same drivers are built with -race and every report with a frame in the repository "
-    "is a violation. That half is a runtime monitor riding on the conformance harness, not a model-checking result.",
+    "is a violation. That half is a runtime monitor riding on the conformance harness, not a model-checking result. A server-level "
+    "part runs hand-over hammer scenarios (configurations that put one key into two services; the server-level collector scraped "
+    "the whole time) on a real OutlineServer under -race: the composition in cmd/outline-ss-server is a shared component too.",
     "The race detector only sees interleavings that occur in the run. Components whose parts are not built yet are listed under "
     "coverage.skipped in the evidence.",
     "DESIGN.md section 4 C19")
@@ -73,7 +78,11 @@ CHECKS["C10"] = ("TLC exhaustive check of Reload.tla (all load sequences x every
     "every quiescent point exactly the last good configuration serves and listens and exactly one runConfig goroutine exists, for all "
     "sequences of <=3-4 attempts over a 12-configuration catalogue with every fault point (unreadable, malformed, invalid, bad cipher "
     "in legacy / 1st / 2nd service, bind failure at any listener). The pinned variant (failed start leaves a zombie generation) is "
-    "the negative control. The same scenarios run against the real code with foreign sockets injecting the bind failures.",
+    "the negative control. The same scenarios run against the real code with foreign sockets injecting the bind failures, and "
+    "against the real binary (SIGHUP reloads, /metrics, logs): every second scenario with -verbose, every third requesting each reload "
+    "with two SIGHUPs 0-50 ms apart on configurations with 2 500 filler keys (a reload that never reports a result, or a process "
+    "that dies, is a load-result violation). The catalogue includes a key whose cipher changes across reloads, listener types in "
+    "other letter cases and other spellings of one wildcard socket (valid for Validate, cannot start).",
     "Fault points are those reachable through files and sockets; goroutine accounting matches on the function name runConfig.func1.",
     "DESIGN.md section 4 C10")
 
@@ -231,7 +240,8 @@ CHECKS["C18"] = ("TLC termination/total-outcome properties of TcpConn.tla and Ud
     "enumerate (address types 0..255, domain lengths 0/1/255, headers truncated at each field, chunk lengths 0/0x3FFF/masked, reply "
     "sizes up to the pack buffer, reply sources IPv4/IPv6/zoned link-local, termination and shutdown orders) are executed on the real "
     "code; each family runs in a child process so that unrecovered panics are seen as exit status; recovered panics are read from "
-    "slog records.",
+    "slog records. At process level every second scenario runs with -verbose (debug statements format errors and their causes) and "
+    "every second one requests reloads with SIGHUP bursts.",
     "'All raw byte strings' = classes x seeded random. The zoned link-local case needs eth0 with a link-local address.",
     "DESIGN.md section 4 C18")
 
